@@ -77,7 +77,7 @@ UNITS["C15"] = [
     dict(kind="structural", name="c15_atomic", check="schema_atomic", file="crates/klukai-agent/src/api/public/mod.rs", fn="execute_schema",
          trusted=["rusqlite: a Transaction dropped without commit() rolls back; SQLite DDL is transactional"]),
     dict(kind="verus", name="c15_schema", template="specs/c15_schema.vrs",
-         under_contract=["frag_tables", "frag_columns", "frag_add_column"], vacuity=["frag_tables", "frag_columns", "frag_add_column"], replay="c15_schema",
+         under_contract=["frag_tables", "frag_columns", "frag_add_column", "frag_indexes"], vacuity=["frag_tables", "frag_columns", "frag_add_column", "frag_indexes"], replay="c15_schema",
          trusted=["key_difference = the idiom `A.keys().collect::<HashSet<_>>().difference(&B.keys().collect::<HashSet<_>>())`; filter_map_collect = `.iter().filter_map(f).collect::<HashMap<_,_>>()` with the real closure; derived PartialEq on Column is field-wise equality"],
          assumptions=["fragments of apply_schema wrapped as functions (return Err(..) kept, fall-through = Ok(())); names are a stand-in text type compared by identity; SQL AST payloads opaque"]),
 ]
